@@ -218,7 +218,11 @@ _add("SIS_compact_effective_degree_from_graph", "SIS", "graph", "fg", SETS + RHO
 _CED = ([("R", T_SIR, "if return_full_data==False times np.array of times S np.array of number susceptible "
                        "I np.array of number infected R np.array of number recovered")],
         [("R", _n("times, S, I, R, SI"), "else times as before S number susceptible I number infected "
-                                         "R number recovered SI S_{s,i} number of SI edges")])
+                                         "R number recovered SI S_{s,i} number of SI edges"),
+         # the wording proposed to the maintainers (the code returns Skappa before SI); whichever of the
+         # two alternatives is in the docstring is the documented order
+         ("R", _n("times, S, I, R, Skappa, SI"), "R number recovered Skappa S_kappa at each time in times "
+                                                 "SI S_{s,i} number of SI edges")])
 _add("SIR_compact_effective_degree", "SIR", "base", "ced", SETS_R + RHO, True, *_CED,
      sibling="SIR_compact_effective_degree_from_graph")
 _add("SIR_compact_effective_degree_from_graph", "SIR", "graph", "fg", SETS_R + RHO, True, *_CED,
@@ -282,10 +286,16 @@ def verify_docstrings(EoN):
         if e["tmin"] != ("tmin" in sig):
             problems.append("%s: tmin parameter presence differs from the table" % nm)
         for full in (False, True):
-            st = e["stmts"][full]
-            for where, names_, ev in st:
-                if _norm(ev) not in doc:
-                    problems.append("%s: docstring no longer contains %r" % (nm, ev))
+            listed = e["stmts"][full]
+            # alternatives whose evidence is absent are dropped; a docstring that matches none of the
+            # listed ':Returns:' statements has changed and the table must be re-extracted
+            st = [x for x in listed if _norm(x[2]) in doc]
+            if any(x[0] == "R" for x in listed) and not any(x[0] == "R" for x in st):
+                problems.append("%s: docstring no longer contains %r" % (nm, [x[2] for x in listed if x[0] == "R"]))
+            for x in listed:
+                if x not in st and x[0] == "A":
+                    problems.append("%s: docstring no longer contains %r" % (nm, x[2]))
+            e["stmts"][full] = st
             orders = set(tuple(_canon(x) for x in n_) for _, n_, _ in st)
             if len(orders) > 1:
                 notes.append("%s docstring states contradictory return orders for return_full_data=%s: %s"
